@@ -507,7 +507,25 @@ func (r *Run) Explore() {
 			}
 		}()
 	}
+	done := make(chan struct{})
+	if os.Getenv("GOSYM_PROGRESS") != "" {
+		go func() {
+			tk := time.NewTicker(5 * time.Second)
+			defer tk.Stop()
+			for {
+				select {
+				case <-done:
+					return
+				case <-tk.C:
+					r.mu.Lock()
+					fmt.Fprintf(os.Stderr, "  .. %s paths=%d queue=%d active=%d queries=%d viol=%d %.0fs\n", r.Harness[strings.LastIndex(r.Harness, ".")+1:], r.Paths, len(queue), active, r.Queries, len(r.Violations), time.Since(t0).Seconds())
+					r.mu.Unlock()
+				}
+			}
+		}()
+	}
 	wg.Wait()
+	close(done)
 	r.Wall = time.Since(t0)
 }
 
